@@ -30,6 +30,9 @@ class Obligation:
 
 class Check:
     def __init__(self, prop: str, tier: str, repo_root: str):
+        from . import pat
+
+        pat.reset()  # pattern environments are per analysis run (keyed by tree identity)
         self.prop = prop
         self.tier = tier
         self.repo_root = repo_root
